@@ -395,6 +395,7 @@ public:
       c.diffuse_rhd = r.chance(0.4);
       c.rad_mode = r.chance(0.2) ? 1 : 0;
       c.tight_pools = c.threads > 1 && r.chance(0.35);
+      c.copy_level = (int)r.below(3);
     }
     if (prop == "C12") {
       // widen over optional components and run modes
@@ -419,6 +420,7 @@ public:
       c.max_neutral = r.chance(0.3) ? 0.3 : -1.;
       c.diffuse_rhd = r.chance(0.4);
       c.fields_mask = r.chance(0.4) ? (int)r.below(256) : 0;
+      c.copy_level = c.radiation ? (int)r.below(3) : 0;
       const char *vm = getenv("VERIF_MODE");
       if (vm && std::string(vm) == "valgrind") {
         // memcheck part: about 50x slower, and without UBSan the known
@@ -485,7 +487,7 @@ public:
                 MI.violation.message.c_str(), MI.max_buffers_in_use, MI.max_tasks_in_use);
       if (fin0 && rc0 == 0 && !M.failed && !MI.failed &&
           MI.max_buffers_in_use > 0) {
-        const long safe_b = c.packets + 27 * c.total_subgrids() * 4 + 64;
+        const long safe_b = c.packets + 27 * c.total_subgrids() * (4 << c.copy_level) + 64;
         const long safe_t = 18 * c.total_subgrids() + 6 * c.packets + 2000;
         c.nbuffers = std::min(safe_b, 2 * MI.max_buffers_in_use + 32);
         c.ntasks = std::min(safe_t, 18l * c.total_subgrids() +
